@@ -89,6 +89,7 @@ def expand(prog: list[dict[str, Any]]) -> list[dict[str, Any]]:
 class C08(Prop):
     id = "C08"
     kinds = ("tasks",)
+    tags: tuple[str, ...] = ("C08",)
     crash = 0.08
     quick_cases = 500
     thorough_cases = 20000
@@ -136,8 +137,10 @@ class C08(Prop):
         labels = [e["l"] for e in impl["trace"] if e["l"][0] != "probeFailed"]
         prog = expand(case["prog"])
         for e in impl["trace"]:
-            if e["l"][0] == "probeFailed":
+            if e["l"][0] == "probeFailed" and set((e["l"][3] if len(e["l"]) > 3 else "C08").split(",")) & set(self.tags):
                 fails.append(f"task {e['l'][1]}: {e['l'][2]}")
+        if self.tags != ("C08",):
+            return [f"[{self.id}] " + f for f in fails]
         crashed = any(l[0] == "taskEnded" and l[2] is not None for l in labels)
         out = next((l[1] for l in labels if l[0] == "outcome"), None)
         if impl["hang"]:
